@@ -164,18 +164,23 @@ THOROUGH_KEEP = {'*': 0.5}      # see vf/runner.py (time: about 10 minutes per t
 def cases(tier, seed):
     out = []
     n = 0
+    pair = 0
     for b in subcls.BASES:
         bn = b.__name__
         for flavour in ('Plain', 'Repr', 'Str', 'Both'):
             cname = flavour + bn.capitalize()
             for vi, bv in enumerate(BASE_VALUES[bn]):
+                pair += 1
                 for ci, ctx in enumerate(CONTEXTS):
                     n += 1
                     if tier == 'quick':
-                        # every (class, value) at top level or one rotating context
+                        # every (class, value) in one rotating context (each context in turn), plus
+                        # fixed extras: str / bytes as dict value and key, the same object twice
                         if flavour in ('Str', 'Both') and vi % 2 == 1:
                             continue
-                        if ci != (n // 7) % len(CONTEXTS) and not (ctx == 'dval' and bn in ('str', 'bytes') and flavour == 'Plain') \
+                        if ci != pair % len(CONTEXTS) \
+                                and not (ctx == 'dval' and bn in ('str', 'bytes') and flavour == 'Plain') \
+                                and not (ctx == 'dkey' and bn in ('str', 'bytes') and vi in (1, 2) and flavour in ('Plain', 'Repr')) \
                                 and not (ctx == 'twice' and vi == 1 and flavour in ('Plain', 'Repr')):
                             continue
                     elif flavour in ('Str', 'Both') and (vi + ci) % 3 != 0:
